@@ -625,6 +625,46 @@ class Sorted(LTerm):
         return "Sorted(%s)" % self.inner.describe()
 
 
+class Dedup(LTerm):
+    """list(set(inner)): the distinct elements of `inner` in an unspecified order (scalar elements only).
+    Every element is an element of inner (src), every element of inner occurs (img), no two positions hold equal
+    values.  Only what follows from these three facts can be proved about it; in praatIO it is always sorted next."""
+
+    def __init__(self, interp, inner):
+        super().__init__(interp, inner.etype)
+        if inner.etype is None or inner.etype.kind != "scalar":
+            raise Unsupported("set() of a list of non-scalar values")
+        self.inner = inner
+        ctx = interp.ctx
+        self._len = ctx.fresh_int("nset")
+        n = inner.length()
+        ctx.assume(z3.And(self._len >= 0, self._len <= n, (self._len == 0) == (n == 0)))
+        self.src = z3.Function("src!" + self.uid, INT, INT)
+        self.img = z3.Function("img!" + self.uid, INT, INT)
+        self.pair_facts.append((TRUE, (lambda a, b: to_z3(a) != to_z3(b)), "distinct"))
+
+    def length(self):
+        return self._len
+
+    def define_member(self, m):
+        im = self.inner.new_member(m.cond, self.src(m.idx))
+        m.origin = im
+        self.ctx.assume(z3.Implies(m.cond, z3.And(self.interp.elem_eq(m.elem, im.elem), self.img(self.src(m.idx)) == m.idx)))
+
+    def forward(self, pm):
+        """an element of the list occurs in its set"""
+        ctx = self.ctx
+        q = self.img(pm.idx)
+        m = Member(q, self.at(q), pm.cond, origin=pm)
+        self.members.append(m)
+        self._mkeys = None
+        ctx.assume(z3.Implies(pm.cond, z3.And(q >= 0, q < self._len, self.interp.elem_eq(m.elem, pm.elem))))
+        return m
+
+    def describe(self):
+        return "set(%s)" % self.inner.describe()
+
+
 class AList:
     """Mutable box holding an abstract list term (python list / tuple semantics by reference)."""
 
@@ -1105,10 +1145,27 @@ class Ctx:
                     work.extend(t.parts)
                 elif isinstance(t, Sorted):
                     work.append(t.inner)
-                elif isinstance(t, (Reverse, Slice)):
+                elif isinstance(t, (Reverse, Slice, Dedup)):
                     work.append(t.inner)
             for t in list(self.terms):
                 if id(t) not in flagged:
+                    continue
+                if isinstance(t, Dedup):
+                    done = t.__dict__.setdefault("_fwd", set())
+                    have = set(id(m.origin) for m in t.members if m.origin is not None)
+                    for pm in list(t.inner.members):
+                        if pm.serial in done:
+                            continue
+                        done.add(pm.serial)
+                        if id(pm) in have or pm.gen > 1 or self.fwd_budget <= 0:
+                            continue
+                        self.fwd_budget -= 1
+                        Member.cur_gen[0] = pm.gen + 1
+                        try:
+                            t.forward(pm)
+                        finally:
+                            Member.cur_gen[0] = 0
+                        changed = True
                     continue
                 if isinstance(t, Slice):
                     # an element of the underlying list inside the window is an element of the slice
